@@ -34,11 +34,11 @@ Theorem flist_decode_any_conforming :
 Proof. exact recv_file_list_enc. Qed.
 
 (** The implementation's own encoder (always long names, no compression)
-    round-trips through its decoder, when -D is understood as devices and
-    specials together (the protocol-27 meaning; the other shapes are C14). *)
+    round-trips through its decoder, for every option set (the sender's and
+    the receiver's conditions for the optional rdev field are the same
+    function of the options). *)
 Theorem flist_roundtrip_gokr :
   forall o es uids gids ioerr rest,
-    o_devices o = o_specials o ->
     Forall (entry_ok o) es -> Forall id_ok uids -> Forall id_ok gids -> i32 ioerr ->
     recv_file_list o (send_file_list o es uids gids ioerr ++ rest)
     = inl (mkFR (sort_entries es) (if o_uid o then uids else []) (if o_gid o then gids else []) ioerr rest).
